@@ -4,6 +4,7 @@ package services
 
 import (
 	"context"
+	"encoding/json"
 	"fmt"
 	"math/rand"
 	"runtime"
@@ -282,6 +283,7 @@ type c17QCase struct {
 	Need    int    `json:"hold_until_counted"`
 	Mode    string `json:"mode"` // hold | free | sched | explore
 	Nodes   int    `json:"nodes"`
+	Readers int    `json:"concurrent_readers,omitempty"`
 }
 
 type c17QOutcome struct {
@@ -349,11 +351,114 @@ func c17Setup(w *c17QWorld, cs c17QCase) (reqs []func() error, probes func() (fu
 	return reqs, probes, true
 }
 
-func (w *c17QWorld) active(cs c17QCase) int {
+// usable counts what a client can actually use right now, read from the records in the
+// store and independent of the per-client indexes the service counts through: codes of
+// the target client that are valid for activation / active mappings of the listener.
+func (w *c17QWorld) usable(cs c17QCase) int {
+	n := 0
 	if cs.Kind == "code-quota" {
-		return w.activeCodes(c17Target)
+		recs, _ := w.mem.QueryByPrefix(constants.KeyPrefixRuntimeConnectionCodeByCode, 0)
+		for _, js := range recs {
+			var c models.TunnelConnectionCode
+			if json.Unmarshal([]byte(js), &c) == nil && c.TargetClientID == c17Target && c.IsValidForActivation() {
+				n++
+			}
+		}
+		return n
 	}
-	return w.activeMappings(c17Listen)
+	recs, _ := w.mem.QueryByPrefix(constants.KeyPrefixPortMapping+":", 0)
+	for _, js := range recs {
+		var m models.PortMapping
+		if json.Unmarshal([]byte(js), &m) == nil && m.ListenClientID == c17Listen && m.Status == models.MappingStatusActive && !m.IsRevoked && !m.IsExpired() {
+			n++
+		}
+	}
+	return n
+}
+
+// active = the larger of the service's own count (through the index) and the usable
+// records in the store: an entry the count cannot see still occupies the quota.
+func (w *c17QWorld) active(cs c17QCase) int {
+	n := w.activeMappings(c17Listen)
+	if cs.Kind == "code-quota" {
+		n = w.activeCodes(c17Target)
+	}
+	if u := w.usable(cs); u > n {
+		n = u
+	}
+	return n
+}
+
+// interposedRead is a read-only request of the same client that takes no quota lock
+// (the "list my codes / my mappings" API), served by the given node.
+func (w *c17QWorld) interposedRead(cs c17QCase, node int) {
+	svc := w.svcs[node%len(w.svcs)]
+	if cs.Kind == "code-quota" {
+		_, _ = svc.ListConnectionCodesByTargetClient(c17Target)
+		return
+	}
+	_, _ = svc.ListOutboundMappings(c17Listen)
+	_, _ = svc.ListInboundMappings(c17Listen)
+}
+
+// c17InterposeTrial runs ONE admission and serves a read-only request of the same client
+// between its storage operations j-1 and j (storage-operation granularity, every j), then
+// keeps admitting until refused. Returns the number of storage operations of the admission.
+func c17InterposeTrial(run *vk.Run, kind string, Q, nodes, j int) int {
+	cs := c17QCase{Kind: kind, Quota: Q, Prefill: Q - 1, N: 1, Mode: "interposed-read", Nodes: nodes, Need: j}
+	var w *c17QWorld
+	if kind == "code-quota" {
+		w = c17NewQWorld(Q, 1000, nodes)
+	} else {
+		w = c17NewQWorld(1000, Q, nodes)
+	}
+	defer w.close()
+	reqs, probes, ok := c17Setup(w, cs)
+	if !ok {
+		run.Count(kind+"_prefill_refused", 1)
+		return 0
+	}
+	run.Case(kind+"-interposed", cs)
+	var opn atomic.Int64
+	var inside atomic.Bool
+	w.g.SetHook(func(tier, op, key string) error {
+		if inside.Load() {
+			return nil
+		}
+		if n := opn.Add(1) - 1; int(n) == j {
+			inside.Store(true)
+			w.interposedRead(cs, nodes-1)
+			inside.Store(false)
+		}
+		return nil
+	})
+	err := reqs[0]()
+	w.g.SetHook(nil)
+	ops := int(opn.Load())
+	issued := 0
+	if err == nil {
+		issued++
+	}
+	for i := 0; i < Q+3; i++ {
+		probe, _ := probes()
+		if probe == nil || probe() != nil {
+			break
+		}
+		issued++
+	}
+	svcCount := w.activeMappings(c17Listen)
+	if kind == "code-quota" {
+		svcCount = w.activeCodes(c17Target)
+	}
+	usable := w.usable(cs)
+	run.Eval(1)
+	run.Count(kind+"_interposed_positions", 1)
+	run.Distinct(fmt.Sprintf("%s|interposed|nodes%d|Q%d|op%d/%d|usable%d", kind, nodes, Q, j, ops, usable))
+	if usable > Q || svcCount > Q {
+		run.Violation(c17Sig(cs, "exceeded|after-interposed-read"), map[string]any{"case": cs, "read_served_before_storage_op": j, "storage_ops_of_admission": ops,
+			"issued_after_prefill": issued, "usable_in_store": usable, "service_count": svcCount, "quota": Q})
+	}
+	return ops
 }
 
 func c17Sig(cs c17QCase, what string) string {
@@ -549,6 +654,13 @@ func c17SchedScenario(run *vk.Run, cs c17QCase, s *vk.Sched) func(bool) {
 		i := i
 		s.Go(fmt.Sprintf("r%d", i), func() { errs[i] = reqs[i]() })
 	}
+	if cs.Readers > 0 {
+		// read-only requests of the same client (no quota lock) interleaved with the admissions
+		for k := 0; k < cs.Readers; k++ {
+			k := k
+			s.Go(fmt.Sprintf("reader%d", k), func() { w.interposedRead(cs, k) })
+		}
+	}
 	return func(okRun bool) {
 		defer w.close()
 		w.g.SetHook(nil)
@@ -580,13 +692,15 @@ func c17QuotaMonitor(t *testing.T, kind, name string) {
 	}
 	run.Rule(what + " with quota Q in {1,2,5}: fill to Q-1 (or Q-2), then N in {2,8,32} concurrent requests. mode hold: each request is held at its first mutating storage operation until K in {2..N} requests are there; " +
 		"mode free: spin barrier only; mode sched: every storage operation is a gate of vk.Sched with a seeded random chooser (N in {2,8}); mode explore: N=2, all schedules with <=2 (thorough: 3) preemptions (capped by runs and by total scheduling steps); 1 in 5 trials places the racers on two service nodes sharing the store. " +
-		"distinct = (mode, Q, prefill, N, K, admitted, racers between count and record) and schedule fingerprints")
+		"interposed-read: one admission with a lock-free read request of the same client (list codes / list mappings, node 0 or 1) served before its j-th storage operation, for every j, then admissions until refused; half of the sched trials add such a reader thread. " +
+		"The quota is judged on max(service count, usable records found in the store). distinct = (mode, Q, prefill, N, K, admitted, racers between count and record) and schedule fingerprints")
 	pre := kind + "_"
 	phase := map[string]float64{}
 	t0 := time.Now()
 	run.Floor(pre+"trials_2plus_in_window", 100)
 	run.Floor(pre+"refusals_seen", 50)
 	run.Floor(pre+"seq_refusals_checked", 50)
+	run.Floor(pre+"interposed_positions", 20)
 	r := run.Rand(kind)
 	reps := run.Pick(200, 2000)
 	if kind == "mapping-quota" {
@@ -623,6 +737,16 @@ func c17QuotaMonitor(t *testing.T, kind, name string) {
 		run.Observe("phase_wall_s", phase)
 	}
 	mark("hold+free")
+	// a read-only request of the same client served at every storage-operation boundary of one admission
+	for _, Q := range []int{1, 2} {
+		for _, nodes := range []int{1, 2} {
+			ops := c17InterposeTrial(run, kind, Q, nodes, -1)
+			for j := 0; j < ops && j < 60 && run.Violations() < 20; j++ {
+				c17InterposeTrial(run, kind, Q, nodes, j)
+			}
+		}
+	}
+	mark("interposed")
 	// seeded random schedules at storage-operation granularity
 	schedReps := run.Pick(25, 400)
 	stallBudget := int64(run.Pick(50, 1500))
@@ -643,7 +767,7 @@ func c17QuotaMonitor(t *testing.T, kind, name string) {
 					run.Count("sched_trials_skipped_stall_budget", 1)
 					continue
 				}
-				cs := c17QCase{Kind: kind, Quota: Q, N: N, Mode: "sched", Prefill: Q - 1, Nodes: 1 + (rep%4)/3}
+				cs := c17QCase{Kind: kind, Quota: Q, N: N, Mode: "sched", Prefill: Q - 1, Nodes: 1 + (rep%4)/3, Readers: rep % 2}
 				s := vk.NewSched(vk.RandomChooser{R: rand.New(rand.NewSource(r.Int63()))})
 				after := c17SchedScenario(run, cs, s)
 				okRun := s.Run(20000)
